@@ -6,7 +6,6 @@ import (
 	"io"
 	"os"
 	"path/filepath"
-	"sync"
 
 	"github.com/uber-go/tally"
 	"github.com/uber/kraken/lib/store/disk"
@@ -31,42 +30,19 @@ type vtBlob struct {
 type vtH struct {
 	s *Store
 	d *disk.Store
-	f *flusher
 	m [2]vtBlob
 }
 
-// vtNew builds a tiered store on real memory and disk stores. With
-// realWorker=false the background worker is stopped before it does anything
-// and the harness runs the worker's body (nextToFlush + flush, the real code)
-// itself, synchronously or in its own goroutines.
-func vtNew(memCap uint64, realWorker bool) *vtH {
+// vtNew builds a tiered store on real memory and disk stores with one real
+// background flush worker.
+func vtNew(memCap uint64) *vtH {
 	s, d, err := NewStore(&Config{
 		DiskConfig:      &disk.Config{CapacityBytes: 100, RootDir: filepath.Join(verif.TempDir(), "tiered")},
 		MemConfig:       &memory.Config{CapacityBytes: memCap, GOMEMLIMITBytes: 1 << 30},
 		NumFlushWorkers: 1,
 	}, tally.NoopScope)
 	verif.Assert("new-store-ok", err == nil)
-	h := &vtH{s: s, d: d, f: s.impl.flusher}
-	if !realWorker {
-		close(h.f.stop)
-	}
-	return h
-}
-
-// flushOne is one iteration of worker(): take the next dirty blob and flush it.
-func (h *vtH) flushOne() bool {
-	b, ok := h.f.nextToFlush()
-	if !ok {
-		return false
-	}
-	h.f.flush(b)
-	return true
-}
-
-// drain runs the worker body until the queue is empty.
-func (h *vtH) drain() {
-	for h.flushOne() {
-	}
+	return &vtH{s: s, d: d}
 }
 
 func (h *vtH) create(k int, data []byte) {
@@ -195,123 +171,11 @@ func (h *vtH) checkAll(nkeys int) {
 	}
 }
 
-// VerifTieredHistory: client histories in which the flusher runs to
-// completion at arbitrary points between client operations (flush as one step),
-// with memory pressure evicting whatever memory lets go.
-func VerifTieredHistory() {
-	nkeys := verif.Bound("keys", 1, 2)
-	h := vtNew(2, false)
-	steps := verif.Bound("steps", 4, 4)
-	for i := 0; i < steps; i++ {
-		k := 0
-		op := verif.Choice("op", 7)
-		if nkeys > 1 && op < 5 {
-			k = verif.Choice("key", nkeys)
-		}
-		switch op {
-		case 0:
-			h.create(k, verif.Bytes("data", 2))
-		case 1:
-			h.markComplete(k)
-		case 2:
-			h.setMd(k, verif.Choice("mdval", 2) == 1)
-		case 3:
-			h.delMd(k)
-		case 4:
-			h.delete(k)
-		case 5:
-			h.drain()
-		case 6:
-			h.pressure(2)
-		}
-		h.checkAll(nkeys)
-	}
-	h.drain()
-	h.pressure(2)
-	h.checkAll(nkeys)
-}
-
-// VerifTieredMetadataVsFlushEnd: a metadata flush of a blob races with the
-// next metadata update of the same blob; afterwards memory comes under
-// pressure and the remaining flush work runs. The last successful update must
-// be what GetMetadata returns.
-func VerifTieredMetadataVsFlushEnd() {
-	verif.Option("max_preempt", verif.Bound("preemptions", 2, 3))
-	h := vtNew(2, false)
-	h.create(0, verif.Bytes("data", 2))
-	h.markComplete(0)
-	if verif.Choice("data-flushed-before", 2) == 1 {
-		h.drain()
-	}
-	h.setMd(0, true)
-	var wg sync.WaitGroup
-	wg.Add(1)
-	go func() {
-		defer wg.Done()
-		h.flushOne()
-	}()
-	if verif.Choice("second-update-is-delete", 2) == 1 {
-		h.delMd(0)
-	} else {
-		h.setMd(0, false)
-	}
-	wg.Wait()
-	h.checkKey(0)
-	h.pressure(2)
-	h.checkKey(0)
-	h.drain()
-	h.checkKey(0)
-	h.pressure(2)
-	h.checkKey(0)
-}
-
-// VerifTieredDeleteRecreateVsFlush: the data flush of a blob races with the
-// client deleting the key, optionally re-creating it with other bytes and
-// completing it again. Afterwards the key holds exactly what the client last
-// completed (or nothing), also once memory is under pressure; a final delete
-// leaves nothing behind and the key can be created again.
-func VerifTieredDeleteRecreateVsFlush() {
-	verif.Option("max_preempt", verif.Bound("preemptions", 2, 3))
-	h := vtNew(2, false)
-	h.create(0, verif.Bytes("data", 2))
-	h.markComplete(0)
-	recreate := verif.Choice("recreate", 2) == 1
-	var wg sync.WaitGroup
-	wg.Add(1)
-	go func() {
-		defer wg.Done()
-		h.flushOne()
-	}()
-	h.delete(0)
-	if recreate {
-		h.create(0, verif.Bytes("data2", 2))
-		h.markComplete(0)
-	}
-	wg.Wait()
-	h.checkKey(0)
-	h.drain()
-	h.checkKey(0)
-	h.pressure(2)
-	h.checkKey(0)
-	if recreate {
-		h.delete(0)
-		h.drain()
-		h.checkKey(0)
-	}
-	onDisk, _ := h.d.Has(vtKeys[0])
-	verif.Assert("deleted-key-gone-from-disk-tier", !onDisk)
-	h.create(0, verif.Bytes("data3", 1))
-	h.markComplete(0)
-	h.drain()
-	h.pressure(2)
-	h.checkKey(0)
-}
-
 // VerifTieredRealWorker: the real background worker goroutine flushes while
 // the client completes a blob, updates its metadata and reads both back.
 func VerifTieredRealWorker() {
 	verif.Option("max_preempt", verif.Bound("preemptions", 1, 2))
-	h := vtNew(2, true)
+	h := vtNew(2)
 	h.create(0, verif.Bytes("data", 2))
 	h.markComplete(0)
 	h.checkKey(0)
